@@ -299,32 +299,46 @@ where
     let t0 = tokio::time::Instant::now();
     let log_t = log.clone();
     let _timing = Defer(Some(move || log_t.ev(json!({"e":"timing","elapsed_ms": t0.elapsed().as_millis() as u64}))));
-    match shape {
-        "unary" | "cstream" => {
-            let r = if shape == "unary" { cl.unary(mkreq!(msgs.first().cloned().unwrap_or_default())).await }
-                    else { cl.cstream(mkreq!(StrictReq::new(&msgs, req_pend.clone()))).await };
-            match r {
-                Ok(resp) => { let (md, m, _) = resp.into_parts(); client_result_events(log, "single", Some(&md), &[m], Ok(None)); }
-                Err(s) => client_result_events(log, "single", None, &[], Err(s)),
-            }
+    // client.noise = n: while the judged call runs, n other (unrecorded, marked) unary calls with 3 kB messages are made one after
+    // the other on a clone of the client, so that over h2 the frames of two streams interleave on the connection
+    let noise_n = c["noise"].as_u64().unwrap_or(0);
+    let mut noise_cl = cl.clone();
+    let noise = async move {
+        for _ in 0..noise_n {
+            let mut wr = Request::new(vec![0x5au8; 3000]);
+            wr.metadata_mut().insert("x-lab-warmup", tonic::metadata::MetadataValue::from_static("1"));
+            let _ = tokio::time::timeout(std::time::Duration::from_secs(30), noise_cl.unary(wr)).await;
         }
-        _ => {
-            let r = if shape == "sstream" { cl.sstream(mkreq!(msgs.first().cloned().unwrap_or_default())).await }
-                    else { cl.bidi(mkreq!(StrictReq::new(&msgs, req_pend.clone()))).await };
-            match r {
-                Err(s) => client_result_events(log, "stream", None, &[], Err(s)),
-                Ok(resp) => {
-                    let (md, mut st, _) = resp.into_parts();
-                    let mut got = vec![];
-                    let fin = loop {
-                        match st.message().await { Ok(Some(m)) => got.push(m), Ok(None) => break st.trailers().await, Err(e) => break Err(e) }
-                        if got.len() > 10000 { break Err(Status::internal("harness: runaway stream")); }
-                    };
-                    client_result_events(log, "stream", Some(&md), &got, fin);
+    };
+    let judged = async {
+        match shape {
+            "unary" | "cstream" => {
+                let r = if shape == "unary" { cl.unary(mkreq!(msgs.first().cloned().unwrap_or_default())).await }
+                        else { cl.cstream(mkreq!(StrictReq::new(&msgs, req_pend.clone()))).await };
+                match r {
+                    Ok(resp) => { let (md, m, _) = resp.into_parts(); client_result_events(log, "single", Some(&md), &[m], Ok(None)); }
+                    Err(s) => client_result_events(log, "single", None, &[], Err(s)),
+                }
+            }
+            _ => {
+                let r = if shape == "sstream" { cl.sstream(mkreq!(msgs.first().cloned().unwrap_or_default())).await }
+                        else { cl.bidi(mkreq!(StrictReq::new(&msgs, req_pend.clone()))).await };
+                match r {
+                    Err(s) => client_result_events(log, "stream", None, &[], Err(s)),
+                    Ok(resp) => {
+                        let (md, mut st, _) = resp.into_parts();
+                        let mut got = vec![];
+                        let fin = loop {
+                            match st.message().await { Ok(Some(m)) => got.push(m), Ok(None) => break st.trailers().await, Err(e) => break Err(e) }
+                            if got.len() > 10000 { break Err(Status::internal("harness: runaway stream")); }
+                        };
+                        client_result_events(log, "stream", Some(&md), &got, fin);
+                    }
                 }
             }
         }
-    }
+    };
+    tokio::join!(judged, noise);
 }
 
 struct Defer<F: FnOnce()>(Option<F>);
@@ -552,9 +566,10 @@ pub fn gen(seed: u64, tier: &str) -> Vec<Value> {
         let (rq, wq, pe) = ([1usize, 2, 7, 64, 65536][rng.gen_range(0..5)], [1usize, 3, 9, 100, 65536][rng.gen_range(0..5)], [0usize, 0, 2, 3][rng.gen_range(0..4)]);
         let shim = if h2 { json!({"cap": 65536, "rq": rq, "wq": wq, "pend": pe}) } else { json!({"cap":0,"rq":0,"wq":0,"pend":0}) };
         let warmup = ["", "", "", "full", "cancel"][rng.gen_range(0..5)];
+        let noise = if h2 { [0u64, 0, 2, 4][rng.gen_range(0..4)] } else { 0 };
         out.push(json!({"mode":"client","class": if h2 {"h2"} else {"inproc"},"transport": if h2 {"h2"} else {"inproc"},"shim":shim,"shape":shape,
             "server":{"send":s_send,"accept":s_acc,"max_dec":-1,"max_enc":-1},
-            "client":{"send":c_send,"accept":c_acc,"max_dec":-1,"max_enc":-1,"clone":rng.gen_bool(0.3),"warmup":warmup},
+            "client":{"send":c_send,"accept":c_acc,"max_dec":-1,"max_enc":-1,"clone":rng.gen_bool(0.3),"warmup":warmup,"noise":noise},
             "req":{"meta":crate::labs::status::rand_meta(&mut rng),"msgs":req_msgs,"pend":(0..=nreq + 1).filter(|_| rng.gen_bool(0.25)).collect::<Vec<usize>>()},
             "script":rand_script(&mut rng, shape)}));
     }
